@@ -72,11 +72,14 @@ theorem c_rFn (d : Backend) (f : Fn) : CS (rFn d f) := by
   | std i => simp only [rFn]; split <;> first | exact CS_S _ | exact CS_bad
   | pg i => cases d <;> simp only [rFn] <;> (try split) <;> first | exact CS_S _ | exact CS_bad
 
+theorem c_kwPiece (t : Option String) : CS (kwPiece t) := by
+  cases t <;> first | exact CS_S _ | exact CS_bad
+
 theorem c_rKw (kw : Kw) : CS (rKw kw) := by
-  cases kw <;> first | exact CS_S _ | exact CS_raw _
+  cases kw <;> simp only [rKw] <;> first | exact c_kwPiece _ | exact CS_raw _
 
 theorem c_rSubOp (d : Backend) (o : SubOp) : CS (rSubOp d o) := by
-  cases o <;> simp only [rSubOp] <;> (try split) <;> first | exact CS_S _ | exact CS_bad
+  cases o <;> simp only [rSubOp] <;> (try split) <;> first | exact c_kwPiece _ | exact CS_bad
 
 theorem c_rOptSubOp (d : Backend) (o : Option SubOp) : CS (rOptSubOp d o) := by
   cases o with
@@ -85,7 +88,7 @@ theorem c_rOptSubOp (d : Backend) (o : Option SubOp) : CS (rOptSubOp d o) := by
 
 theorem c_rJoinType (d : Backend) (n : Nat) : CS (rJoinType d n) := by
   unfold rJoinType
-  split <;> (try split) <;> first | exact CS_S _ | exact CS_bad
+  split <;> first | exact c_kwPiece _ | exact CS_bad
 
 theorem c_rColRef (c : ColRef) : CS (rColRef c) := by
   intro pw k hk
@@ -279,11 +282,15 @@ theorem c_rLock (d : Backend) (l : Lock) : CS (rLock d l) := by
       CS_ite CS_nil (CS.consS _ (by decide) (c_rTNames _ true))
     have h2h : okK (hK (if l.tables.isEmpty then [] else [S " OF "] ++ rTNames true l.tables)) = true := by
       split <;> ev
-    have h3 : CS (match l.behavior with | some 0 => [S " NOWAIT"] | some _ => [S " SKIP LOCKED"] | none => []) := by
-      split <;> first | exact CS_S _ | exact CS_nil
-    have h3h : okK (hK (match l.behavior with | some 0 => [S " NOWAIT"] | some _ => [S " SKIP LOCKED"] | none => [])) = true := by
-      split <;> ev
-    exact CS.app (CS.app (CS_S _) h2 h2h) h3 h3h
+    have h3 : CS (rLockBehavior l.behavior) := by
+      unfold rLockBehavior; split <;> first | exact c_kwPiece _ | exact CS_nil
+    have h3h : okK (hK (rLockBehavior l.behavior)) = true := by
+      unfold rLockBehavior
+      split
+      · rename_i b; unfold lockBehaviorKw; split <;> ev [kwPiece]
+      · ev
+    have := CS.consS "FOR " (by decide) (CS.app (CS.app (c_kwPiece (lockKw l.ty)) h2 h2h) h3 h3h)
+    simpa [List.append_assoc] using this
 
 theorem c_rOptLock (d : Backend) (l : Option Lock) : CS (rOptLock d l) := by
   intro pw k hk
